@@ -617,6 +617,24 @@ CLAIMS["C04"]["note"] += (
     "script as failing input; the seeded change C04-occurs-check-alias is caught by it. Props/Solve.lean: solve_terminates (the "
     "constraint loop cannot spin: explicit bound on the number of passes), solve_acyclic.")
 
+CLAIMS["C12"]["note"] += (
+    " Round 11 — the parser's grammar functions are inside the model: Model/Grammar.lean holds all 61 grammar functions of file.rs, expr.rs, "
+    "pattern.rs, path.rs, stmt.rs and their 28 loops as terms of a statement language over the parser primitives (tables regenerated into "
+    "Gen/Grammar.lean; grammar_model_covers_source re-checks function-for-function, loop-for-loop agreement with the Rust text). Validated "
+    "(tie): the model's event list equals Parser.events event for event (kinds, forward parents, Error messages) on every tree-tie input of "
+    "the C12 streams plus all token strings <= 3 over 44 token classes and the fuel-boundary family; all 61 functions and 28 loop heads are "
+    "exercised. Proved for every token list, fuel level and call budget: grammar_stepOK, grammar_advances_cover_cursor (Props/C04), "
+    "grammar_sets_reject_eof, parse_events_cover_tokens_partial. NOT proved (named _partial): that the model's call budget never runs out "
+    "(grammar_terminates; the tie observes oof=false on every input) and that flatL of an item tree satisfies resolve/balancedFrom for all "
+    "trees (checked on every real and model event list, decided on examples).")
+CLAIMS["C04"]["note"] += (
+    " Round 11: Props/C04.lean additionally proves, over the model of ALL grammar functions (Model/Grammar.lean, tied event for event to "
+    "Parser.events): grammar_stepOK (no grammar function touches the tokens, moves the cursor back or past the end), "
+    "grammar_advances_cover_cursor, fileItems_ends_at_eof, file_consumes_all_tokens_partial (file() ends at the end of the input with one "
+    "Advance per token whenever the model's call budget did not run out; that it never does is observed, not proved). Found by this work and "
+    "fixed (76b89dc in the worker's repo): parser panic at entry assertions / unreachable!() when a look takes the last unit of fuel "
+    "(match with 250 prefix operators in the scrutinee).")
+
 
 def main():
     checks = []
